@@ -2,6 +2,7 @@ package main
 
 import (
 	"bytes"
+	"flag"
 	"context"
 	"fmt"
 	"io"
@@ -175,18 +176,23 @@ func (s *sizeRecorder) Write(p []byte) (int, error) {
 }
 
 func runC07(args []string) error {
-	rf, err := parseFlags("c07", args, nil)
+	framingOnly := false
+	rf, err := parseFlags("c07", args, func(fs *flag.FlagSet) { fs.BoolVar(&framingOnly, "framing-only", false, "only the framing cases") })
 	if err != nil {
 		return err
 	}
 	r := rf.rng()
 	sum := &Summary{Engine: "c07", Seed: rf.Seed,
 		Rule: "restores through the real table.Manager on a single-node dragonboat NodeHost (in-memory FS): source tables of 0-12 pairs with values from empty to 300 KiB (thorough: 2 MiB) captured by the real commandSnapshot into a real snapshot file (snappy + length frames), shipped through snapshot.Writer/Reader with chunk sizes from 1 byte to 1 MiB, with and without the final index message, while a writer modifies the source table mid-capture; MaxInMemLogSize in {0, values placing the batch threshold on every record position, default}; restore over an existing table with other content; observed: full range and leader index of the restored table. Plus framing cases (message lists x chunk sizes) through real snapshot files. distinct = distinct (content, setting, chunking); non-trivial = at least 3 pairs and a threshold that cuts inside the stream"}
-	nh, members, err := startNodeHost()
-	if err != nil {
-		return err
+	var nh *dragonboat.NodeHost
+	var members map[uint64]string
+	if !framingOnly {
+		nh, members, err = startNodeHost()
+		if err != nil {
+			return err
+		}
+		defer nh.Close()
 	}
-	defer nh.Close()
 	cf := &CasesFile{Requires: []string{"Model.Bytes", "Model.Obs", "Model.Restore", "Run.C07Run"}, CaseType: "c07case", Check: "c07_check", Show: "c07_model"}
 	hs := sum.hist("settings")
 	ctx := context.Background()
@@ -229,6 +235,9 @@ func runC07(args []string) error {
 		plans = append(plans, p)
 	}
 	store := &kv.MapStore{} // shared: shard ids keep increasing across managers on the one NodeHost
+	if framingOnly {
+		plans = nil
+	}
 	for c, p := range plans {
 		cfg := table.Config{NodeID: 1,
 			Table: table.TableConfig{HeartbeatRTT: 1, ElectionRTT: 5, FS: pvfs.NewMem(), BlockCacheSize: 1024, TableCacheSize: 1024, MaxInMemLogSize: p.maxInMem},
@@ -382,6 +391,9 @@ func runC07(args []string) error {
 	// ---- framing through real snapshot files ----
 	ff := &CasesFile{Requires: []string{"Model.Bytes", "Model.Obs", "Model.Framing", "Run.C07Run"}, CaseType: "frcase", Check: "fr_check", Show: "fr_model"}
 	nfr := 25
+	if framingOnly {
+		nfr = 120
+	}
 	if rf.Tier == "thorough" {
 		nfr = 300 * rf.Scale
 	}
@@ -469,9 +481,15 @@ func runC07(args []string) error {
 			sum.DistinctNontrivial++
 		}
 	}
-	names, err := cf.Write(rf.Out, "c07_cases", 8)
-	if err != nil {
-		return err
+	var names []string
+	if !framingOnly {
+		names, err = cf.Write(rf.Out, "c07_cases", 8)
+		if err != nil {
+			return err
+		}
+	}
+	if len(sum.Samples) == 0 {
+		sum.Samples = append(sum.Samples, ff.Descr[0])
 	}
 	fnames, err := ff.Write(rf.Out, "c07_framing", 50)
 	if err != nil {
